@@ -59,6 +59,7 @@ const (
 	inCancelCommit = "cancel-at-commit" // ctx cancelled inside the k-th commit's completion callback
 	inCancelGate   = "cancel-at-read"   // ctx cancelled when the k-th work item (bt ingest range / sdl block) is first read by a worker
 	inFail         = "fail-commit"      // the k-th commit returns an error and applies nothing
+	inFailRead     = "fail-read"        // the k-th point read on the store returns an error once (transient read fault)
 	inCancelStart  = "cancel-before-run"
 )
 
@@ -133,6 +134,8 @@ func execRun(t *testing.T, img *memory.Database, cfg startCfg, perm [4]int, in i
 			})
 		case inFail:
 			d.FailAt(in.K, nil)
+		case inFailRead:
+			d.FailGetAt(in.K, nil)
 		case inCancelStart:
 			cancel()
 		}
@@ -612,7 +615,7 @@ func exploreItem(bc *bCtx, it bItem, maxDepth int, failInj bool) {
 		key := "b/uninterrupted-run-fails: " + errClass(o.newErr, o.runErr) + " [" + failingMigration(o.runErr) + "; history: " + historyKinds(st.trace) + "]"
 		if o.runErr != nil && failingMigration(o.runErr) == "historyprunner" &&
 			contains(o.runErr.Error(), " history at block") && contains(o.runErr.Error(), "key not found") &&
-			(contains(st.trace, "crash-after-commit") || contains(st.trace, inFail)) {
+			(contains(st.trace, "crash-after-commit") || contains(st.trace, inFail) || contains(st.trace, inFailRead)) {
 			// one defect class on the unchanged tree (known finding): an ABRUPT interruption (crash / failed commit) left
 			// the database there; the same failure after graceful cancellations only keeps its own key and is reported
 			key = "b/restart-fails: historyprunner cannot resume after a crash or failed commit in its restore phase (history or scratch already wiped, progress only persisted on graceful cancel)"
@@ -707,6 +710,11 @@ afterFinal:
 	for k := 1; k <= o.arrivals && full; k++ {
 		ins = append(ins, interrupt{inCancelGate, k})
 	}
+	// 5. a transient read fault at every point read of the first process start (the run dies with an error; whatever
+	// its workers had queued may or may not have been committed on the way out)
+	for k := 1; k <= o.d.Gets() && st.depth == 0 && pm == [4]int{0, 1, 2, 3}; k++ {
+		ins = append(ins, interrupt{inFailRead, k})
+	}
 	ev.Par(len(ins), 4, func(ii int) {
 		in := ins[ii]
 		oi := execRun(t, st.img, cfg, pm, in)
@@ -718,6 +726,10 @@ afterFinal:
 			r.Infra("part b: schedule control deadlocked (%s %s)", sp.Name, tri)
 		}
 		if oi.newErr != nil {
+			if in.Kind == inFailRead && oi.d.Commits() == 0 {
+				r.Outcome("b: fail-read -> the start fails before anything is written") // the fault hit NewRunner's own reads
+				return
+			}
 			r.Violate("b/restart-refused", map[string]any{"shape": sp.Name, "trace": tri, "err": oi.newErr.Error()})
 			return
 		}
@@ -732,7 +744,7 @@ afterFinal:
 			r.Outcome("b: " + in.Kind + " -> ctx error")
 		default:
 			r.Outcome("b: " + in.Kind + " -> other error")
-			if in.Kind != inFail {
+			if in.Kind != inFail && in.Kind != inFailRead {
 				r.Violate("b/interrupted-run-fails: "+errClass(nil, oi.runErr), map[string]any{"shape": sp.Name, "trace": tri, "err": oi.runErr.Error()})
 			}
 		}
@@ -800,7 +812,7 @@ func (c *chain) checkBlock(r db.KeyValueReader, b int, relax bool) string {
 // fails after a plain crash or cancellation is a different defect class from one that needs an I/O error first).
 func historyKinds(trace string) string {
 	var ks []string
-	for _, k := range []string{"crash-after-commit", inCancelCommit, inCancelGate, inCancelStart, inFail} {
+	for _, k := range []string{"crash-after-commit", inCancelCommit, inCancelGate, inCancelStart, inFail, inFailRead} {
 		if contains(trace, k) {
 			ks = append(ks, k)
 		}
